@@ -13,6 +13,13 @@ def mult_type(f, u):
 
 # Harnesses whose SAT instance needs minutes (two symbolic float multiplications / a float division by a
 # non-power-of-two constant): thorough tier only.  Measured times are in DESIGN.md section 9.
+# Not emitted: SAT instance not decided within 3000 s (cadical, this sandbox) -> outside the claim, see DESIGN.md section 9.
+DISABLED = {
+    "c06_f64_u16_monotone", "c06_f64_u16_monotone_adj", "c06_f64_u32_monotone", "c06_f64_u32_monotone_adj",
+    "c06_u64_u16_monotone", "c06_u64_u32_monotone", "c06_u128_u16_monotone", "c06_u128_u32_monotone",
+    # dominated by a cheaper equivalent form that is kept:
+    "c06_f32_u32_monotone", "c06_f32_u16_monotone_adj",
+}
 THOROUGH = {
     "c06_f32_u16_monotone", "c06_f32_u32_monotone", "c06_f32_u32_nearest", "c06_f32_u32_monotone_adj", "c06_f32_u16_monotone_adj",
     "c06_f64_u16_monotone", "c06_f64_u32_monotone", "c06_f64_u32_nearest", "c06_f64_u16_monotone_adj", "c06_f64_u32_monotone_adj",
@@ -23,6 +30,8 @@ THOROUGH = {
 
 class O(Out):
     def harness(self, name, *a, **k):
+        if name in DISABLED:
+            return
         k.setdefault("thorough", name in THOROUGH)
         super().harness(name, *a, **k)
 
